@@ -1,9 +1,9 @@
 (* C19 — JSON serialisation round-trips and is valid JSON.  Property theorems only.
    FULL statement (NOT true of the code: C19-F1, non-ASCII strings):
      for every value v of the supported model:  round_trip v = Some (t, RtOk (norm v)).
-   PROVED for every tree of the domain tree_ok (C19_nested_round_trip: objects of any depth whose fields are strings of printable ASCII,
-   booleans, integers, floats, null, typed arrays of every element kind, and objects again) and for every top-level typed array; arrays
-   of objects: one representative tree by evaluation, correspondence and the independent-parser oracle. *)
+   PROVED for every tree of the domain tree_ok (C19_nested_round_trip, C19_object_array_round_trip: objects of any depth whose fields are
+   strings of printable ASCII, booleans, integers, floats, null, typed arrays of every element kind, objects again, and arrays of objects
+   that can be read with their first element as the declared type) and for every top-level typed array. *)
 From Rws Require Import Str Utf8 Num RespParse Json JsonArray Server JsonRt C19Lemmas C19Proof C19Nested.
 Open Scope N_scope.
 
@@ -56,6 +56,10 @@ Proof. exact float_array_round_trip. Qed.
    braces and brackets inside strings are not counted, every inner block closes before the outer one. *)
 Theorem C19_nested_round_trip : forall fs, tree_ok (JO fs) = true -> exists t, round_trip (JO fs) = Some (t, RtOk (norm (JO fs))).
 Proof. exact nested_round_trip. Qed.
+(* arrays of objects, at the top or as a field at any depth: the reader takes the FIRST element as the declared type of every element, so
+   the domain asks that every element can be read with it (same field names in the same order, same kinds, null anywhere): conforms *)
+Theorem C19_object_array_round_trip : forall xs, tree_ok (JAO xs) = true -> exists t, round_trip (JAO xs) = Some (t, RtOk (norm (JAO xs))).
+Proof. exact object_array_round_trip. Qed.
 Theorem C19_nested_domain_inhabited : tree_ok tree_example = true /\ flat_ok tree_example = false /\ (3 <= depth tree_example)%nat.
 Proof. exact tree_example_ok. Qed.
 (* nested objects, arrays of every element kind and brackets inside strings: one representative tree, by evaluation *)
